@@ -165,3 +165,6 @@ func (v *VerifRegistry) IsFull() bool { return v.rg.IsFull() }
 func (v *VerifRegistry) ForceResize(n int) string {
 	return v.guard(func() { v.rg.forceResize(n) })
 }
+
+// VerifCopyReturnValues is vm.go's copyReturnValues on L's registry (absolute register numbers).
+func VerifCopyReturnValues(L *LState, regv, start, n, b int) { copyReturnValues(L, regv, start, n, b) }
